@@ -25,17 +25,18 @@ import (
 
 // Step is one instruction of a program.
 type Step struct {
-	Op   string   `json:"op"`
-	To   string   `json:"to,omitempty"`  // logical actor name ("a", "a/b"), or a raw path for ghosts ("/ghost")
-	Via  string   `json:"via,omitempty"` // how the reference is obtained: "" spawn ref | clone | parse | create | find | sender | self | parent
-	ID   int      `json:"id,omitempty"`
-	N    int      `json:"n,omitempty"`
-	D    int64    `json:"d,omitempty"` // nanoseconds
-	B    bool     `json:"b,omitempty"`
-	S    string   `json:"s,omitempty"`
-	L    []string `json:"l,omitempty"`
-	Do   []Step   `json:"do,omitempty"` // program carried by the message that is sent
-	Spec *Spec    `json:"spec,omitempty"`
+	Op      string   `json:"op"`
+	To      string   `json:"to,omitempty"`  // logical actor name ("a", "a/b"), or a raw path for ghosts ("/ghost")
+	Via     string   `json:"via,omitempty"` // how the reference is obtained: "" spawn ref | clone | parse | create | find | sender | self | parent
+	ID      int      `json:"id,omitempty"`
+	N       int      `json:"n,omitempty"`
+	D       int64    `json:"d,omitempty"` // nanoseconds
+	B       bool     `json:"b,omitempty"`
+	S       string   `json:"s,omitempty"`
+	L       []string `json:"l,omitempty"`
+	Do      []Step   `json:"do,omitempty"` // program carried by the message that is sent
+	Spec    *Spec    `json:"spec,omitempty"`
+	PerLife bool     `json:"perLife,omitempty"` // once / loop in a launch program: see run
 }
 
 // Spec describes an actor to spawn.
@@ -724,12 +725,20 @@ func (p *probe) run(ctx vivid.ActorContext, prog []Step, curID int) {
 			ctx.EventStream().UnsubscribeAll(ctx)
 		case "pub":
 			ctx.EventStream().Publish(ctx, evValue(st.S, st.ID))
-		case "once":
-			err := ctx.Scheduler().Once(w.Resolve(st.To, st.Via, p, ctx), time.Duration(st.D), &Msg{ID: st.ID, Do: st.Do, Sched: true}, schedOpts(st)...)
-			w.call(who, "once", st.ID, err, st.S)
-		case "loop":
-			err := ctx.Scheduler().Loop(w.Resolve(st.To, st.Via, p, ctx), time.Duration(st.D), &Msg{ID: st.ID, Do: st.Do, Sched: true}, schedOpts(st)...)
-			w.call(who, "loop", st.ID, err, st.S)
+		case "once", "loop":
+			// PerLife: a job armed by the launch program of every life gets an identity of its own per life
+			// (message id + 1000 x incarnation, reference + "#incarnation")
+			if st.PerLife {
+				st.ID += 1000 * p.sh.incar
+				st.S = fmt.Sprintf("%s#%d", st.S, p.sh.incar)
+			}
+			var err error
+			if st.Op == "once" {
+				err = ctx.Scheduler().Once(w.Resolve(st.To, st.Via, p, ctx), time.Duration(st.D), &Msg{ID: st.ID, Do: st.Do, Sched: true}, schedOpts(st)...)
+			} else {
+				err = ctx.Scheduler().Loop(w.Resolve(st.To, st.Via, p, ctx), time.Duration(st.D), &Msg{ID: st.ID, Do: st.Do, Sched: true}, schedOpts(st)...)
+			}
+			w.call(who, st.Op, st.ID, err, st.S)
 		case "cron":
 			err := ctx.Scheduler().Cron(w.Resolve(st.To, st.Via, p, ctx), st.L[0], &Msg{ID: st.ID, Do: st.Do, Sched: true}, schedOpts(st)...)
 			w.call(who, "cron", st.ID, err, st.S)
